@@ -2,8 +2,8 @@
 
 Every expectation is a textbook InnoDB behaviour: a FOR UPDATE read-modify-write never loses an update, the same
 procedure without the clause does; opposite lock orders deadlock and the victim sees error 1213 with its
-transaction rolled back; a plain SELECT never sees uncommitted data; pruned and unpruned searches agree; worker
-threads are pooled, not leaked.
+transaction rolled back; a plain SELECT never sees uncommitted data; pruned and unpruned searches agree; an
+execution that dies half-way leaves no statement in flight; no thread is created.
 """
 import asyncio
 
@@ -97,7 +97,7 @@ def _finals(r):
 
 def _teardown_checks(db):
     """An execution that dies half-way (an operation raises / the step horizon is exceeded while the other session is
-    parked inside a CALL) must leave no worker in flight, no lock and the model uninstalled."""
+    parked inside a CALL) must leave no statement in flight and the model uninstalled."""
     import aiomysql
 
     from vf import txmc, vloop
@@ -132,13 +132,16 @@ def _teardown_checks(db):
             else:
                 raise AssertionError(f'expected {exc_type.__name__}')
             assert db.txmodel is None and pool._backend is None
-            assert txmc.pool().busy == 0, txmc.pool().busy
+            assert not txmc.LAST.inflight and all(x.tx_status is None and not x.frames for x in txmc.LAST.sessions), txmc.LAST.inflight
     db.store.restore_data(pristine)
 
 
 def run():
+    import threading
+
     from vf import txmc
 
+    n_threads = threading.active_count()
     db = _db()
     # 1. locked read-modify-write: no lost update, in every interleaving; the lock is really waited for
     r, t = _explore(db, [('CALL bump(%s)', (1,)), ('CALL bump(%s)', (1,))])
@@ -177,12 +180,12 @@ def run():
     r8, _ = _explore(db, [('CALL bump(%s)', (1,)), ('CALL peek(%s)', (1,))], snapshot_reads=True)
     xy = {(dict(eval(k)[1][1])['x'], dict(eval(k)[1][1])['y']) for k in r8.outcomes}   # noqa: S307
     assert xy == {(0, 0), (1, 1)}, xy
-    # 7. three sessions, and no thread leak: workers are pooled
+    # 7. three sessions
     r9, t9 = _explore(db, [('CALL bump(%s)', (1,)), ('CALL bump(%s)', (1,)), ('CALL bump(%s)', (1,))])
     assert _finals(r9) == {((1, 3), (2, 0))}, r9.outcomes
     total = sum(x.executions for x in (r, r2, r2u, r3, r4, r5, r6, r7, r8, r9))
     _teardown_checks(db)
-    assert txmc.live_worker_threads() <= 3 and txmc.pool().busy == 0, (txmc.live_worker_threads(), txmc.pool().busy, total)
+    assert threading.active_count() == n_threads, threading.enumerate()   # no thread is ever created
     # default behaviour untouched once the model is gone
     assert db.txmodel is None
     s = db.session()
